@@ -362,7 +362,7 @@ namespace fixedmath
     typename = std::enable_if_t<detail::is_arithmetic_v<supported_type>>
     >
   [[ gnu::always_inline ]]
-  inline fixed_t & operator -= ( fixed_t & lh, supported_type rh ) noexcept 
+  constexpr fixed_t & operator -= ( fixed_t & lh, supported_type rh ) noexcept 
     { 
     lh = fixed_substract(lh,rh);
     return lh;
